@@ -30,7 +30,8 @@ CONFIG = {
                    ' Also: text with operator synonyms and irregular blanks,'
                    ' n-ary operators as text/object/nested binary, the same path'
                    ' formula under A and E, depth-2 LTL formulas through raw-leaf'
-                   ' object / wrapped object / text / CTL* entry.'),
+                   ' object / wrapped object / text / CTL* entry.'
+                   ' Also (round 6): n-ary and/or over 3-4 distinct operands (third atom r) as object, text and nested binary forms through every entry point.'),
     'level_note': ('Trusted base: only the relations themselves (standard '
                    'semantic identities) and set comparison. Raw foreign-'
                    'class objects (e.g. a CTL object given to LTL.modelcheck) '
